@@ -4,8 +4,13 @@
    It models  xmlUnmarshalElement(el, &T{})  =  xml.Unmarshal(etree-serialisation of el, &T{}) as:
      1. the token view of the serialised element: name-space translation of element and attribute names
         exactly as Decoder.Token does (undeclared prefix => Space = prefix; default space only for
-        elements), comments / processing instructions / directives dropped, CR normalised to LF in
-        character data and attribute values (etree writes U+000D raw; the tokenizer reads it as U+000A);
+        elements), comments / processing instructions / directives dropped; character data and attribute
+        values AS THEY ARE in the element: xmlUnmarshalElement writes with WriteSettings.CanonicalText and
+        CanonicalAttrVal (repair of F13), so U+000D (and TAB / LF in attribute values) goes out as a character
+        reference and the tokenizer gives it back ([view]; justification: EscapeProofs.xml_reader_after_canonical_escape,
+        P_Canon.canon_values_recovered).  Under etree's DEFAULT write settings -- xmlUnmarshalElement before that
+        repair, and goxmldsig's own re-serialisation of the Signature element to this day -- U+000D is written raw
+        and the tokenizer reads it as U+000A: [view_original], CR normalised to LF;
      2. Decoder.unmarshal: XMLName check (local and name space; mismatch is an ERROR), attribute fields
         matched on local name (+ name space if the tag gives one), in attribute order, later ones
         overwrite; element fields matched with unmarshalPath ("a>b>c" parent paths, first field in
@@ -13,7 +18,7 @@
         slices appended, chardata = concatenation of all direct character data, scalar conversion as
         copyValue (TrimSpace + ParseInt / ParseBool), time.Time through UnmarshalText (strict RFC 3339).
    Law assumed (exercised by every XML-level correspondence case): tokenising etree's serialisation of a
-   tree yields that tree's tokens (H_unmarshal_view, DESIGN.md section 7). *)
+   tree (under the write settings in force) yields that tree's tokens (H_unmarshal_view, DESIGN.md section 7). *)
 From V Require Import Base Time Xml SchemaDefs.
 Local Open Scope string_scope.
 Local Open Scope list_scope.
@@ -63,22 +68,53 @@ Fixpoint cr_normalise (s : string) : string :=
       else String c (cr_normalise r)
   end.
 
+(* one view per etree write setting: [ct] = WriteSettings.CanonicalText, [ca] = WriteSettings.CanonicalAttrVal.  A value
+   written canonically comes back as it is; a value written with the default escaper comes back CR-normalised. *)
+Definition read_back (canonical : bool) (s : string) : string := if canonical then s else cr_normalise s.
+
+Fixpoint view_ws (ct ca : bool) (ns : list (string * string)) (n : node) : list xnode :=
+  match n with
+  | Elem sp tg attrs kids =>
+      let ns' := push_decls ns attrs in
+      [XElem (translate_name ns' sp tg true) tg
+             (map (fun a => {| xa_space := translate_name ns' (at_space a) (at_key a) false;
+                               xa_local := at_key a; xa_val := read_back ca (at_val a) |}) attrs)
+             (flat_map (view_ws ct ca ns') kids)]
+  | Text s => [XText (read_back ct s)]
+  | _ => []
+  end.
+
+(* xmlUnmarshalElement (CanonicalText, CanonicalAttrVal): the values of the element, exactly *)
 Fixpoint view (ns : list (string * string)) (n : node) : list xnode :=
   match n with
   | Elem sp tg attrs kids =>
       let ns' := push_decls ns attrs in
       [XElem (translate_name ns' sp tg true) tg
              (map (fun a => {| xa_space := translate_name ns' (at_space a) (at_key a) false;
-                               xa_local := at_key a; xa_val := cr_normalise (at_val a) |}) attrs)
+                               xa_local := at_key a; xa_val := at_val a |}) attrs)
              (flat_map (view ns') kids)]
+  | Text s => [XText s]
+  | _ => []
+  end.
+
+(* etree's default write settings: xmlUnmarshalElement before the repair of F13; goxmldsig's re-serialisation (Dsig.v) *)
+Fixpoint view_original (ns : list (string * string)) (n : node) : list xnode :=
+  match n with
+  | Elem sp tg attrs kids =>
+      let ns' := push_decls ns attrs in
+      [XElem (translate_name ns' sp tg true) tg
+             (map (fun a => {| xa_space := translate_name ns' (at_space a) (at_key a) false;
+                               xa_local := at_key a; xa_val := cr_normalise (at_val a) |}) attrs)
+             (flat_map (view_original ns') kids)]
   | Text s => [XText (cr_normalise s)]
   | _ => []
   end.
 
 (* the token view of bytes that are READ DIRECTLY into a struct (the unverified pre-decoders: xml.Decoder.Decode on the
-   received bytes, no etree serialisation in between): as [view], but nothing is normalised here -- raw CR / CR LF of the
-   input were turned into LF by the tokenizer already (XmlTok.v), and a U+000D that entered a value through a character
-   reference (&#13; / &#xD;) STAYS.  [view] differs exactly on such values (finding F13, DESIGN.md section 6). *)
+   received bytes, no etree serialisation in between): nothing is normalised here -- raw CR / CR LF of the input were turned
+   into LF by the tokenizer already (XmlTok.v), and a U+000D that entered a value through a character reference
+   (&#13; / &#xD;) STAYS.  Since the repair of F13 this is [view] (P_Schema.view_direct_is_view); [view_original] differs
+   exactly on values with U+000D (DESIGN.md section 6, F13). *)
 Fixpoint view_direct (ns : list (string * string)) (n : node) : list xnode :=
   match n with
   | Elem sp tg attrs kids =>
@@ -354,6 +390,18 @@ Fixpoint xsize (n : xnode) : nat :=
 (* xml.Unmarshal of the serialisation of [root] into a fresh value of struct type [name] *)
 Definition unmarshal_element (sch : schema) (name : string) (root : node) : res gval :=
   match view [] root with
+  | [x] => unmarshal sch (Datatypes.S (Datatypes.S (height root)) + xsize x) (TStruct name) (GStruct []) x
+  | _ => Err (EOther "no root element")
+  end.
+
+(* the same under given write settings / under etree's default write settings *)
+Definition unmarshal_element_ws (ct ca : bool) (sch : schema) (name : string) (root : node) : res gval :=
+  match view_ws ct ca [] root with
+  | [x] => unmarshal sch (Datatypes.S (Datatypes.S (height root)) + xsize x) (TStruct name) (GStruct []) x
+  | _ => Err (EOther "no root element")
+  end.
+Definition unmarshal_element_original (sch : schema) (name : string) (root : node) : res gval :=
+  match view_original [] root with
   | [x] => unmarshal sch (Datatypes.S (Datatypes.S (height root)) + xsize x) (TStruct name) (GStruct []) x
   | _ => Err (EOther "no root element")
   end.
